@@ -111,7 +111,7 @@ func funcMapPhase(cr *checkResult, w *symex.World) {
 				cr.discharged++
 			} else {
 				res = "refuted"
-				dir := verifDir + "/replays/C16"
+				dir := outDir() + "/replays/C16"
 				os.MkdirAll(dir, 0o755)
 				path := dir + "/" + sanitize(name) + ".txt"
 				os.WriteFile(path, []byte(fmt.Sprintf("property: C16\nfailed obligation: %s\nFuncMap[%q] is documented to be %s but is bound to %s (object identity by go/types)\nfailing input: any template that calls %q\n", name, key, c.Binding, got, key)), 0o644)
@@ -145,21 +145,21 @@ func init() {
 func init() {
 	register(&propInfo{
 		id:       "C07",
-		patterns: []string{"./config", "./internal"},
+		patterns: []string{"./config", "./internal", "./internal/cmd", "./template"},
 		trusted: []string{
 			"regexp.MatchString(p, s) is a pure function; its error depends on the pattern only; an invalid pattern matches nothing",
 			"packages.Load returns one syntax tree per Go file (axiom loader_syntax); ast.Walk calls Visit on nodes of the file and follows the ast.Visitor protocol (a nil result prunes the subtree)",
 			"go/types accessors (Scope.Lookup, IsInterface, Named.Obj, TypeName.Pkg, ...) are pure functions of their receiver",
 			"mergeConfigs: see C08",
 		},
-		note: "partial: the selection predicate (ShouldGenerateInterface) is proved to be the property's iff verbatim for all flag/regex/name combinations; discovery (NodeVisitor.Visit, ParsePackages), the sub-package filter (subPackages closure, ShouldExcludeSubpkg), one-mock-per-configs-entry (InterfaceConfig.Initialize) and recursive expansion (RootConfig.Initialize inner loop) are proved; the AST walk itself and the expansion loop of Run are covered under C09/C10",
+		note: "partial: the selection predicate (ShouldGenerateInterface) is proved to be the property's iff verbatim for all flag/regex/name combinations; discovery (NodeVisitor.Visit, ParsePackages), the sub-package filter (subPackages closure, ShouldExcludeSubpkg), one-mock-per-configs-entry (InterfaceConfig.Initialize) and recursive expansion (RootConfig.Initialize inner loop) are proved; the per-interface expansion in RootApp.Run (a mock is collected only for an interface ShouldGenerateInterface selected, once per entry of its configs list, with that entry as its configuration) is proved by call-site obligations; the AST walk itself (ast.Walk) is assumed",
 	})
 }
 
 func init() {
 	register(&propInfo{
 		id:       "C08",
-		patterns: []string{"./config"},
+		patterns: []string{"./config", "./internal/cmd", "./internal", "./template"},
 		trusted: []string{
 			"package reflect: ValueOf, Elem, Field, NumField, Kind, Type, Interface, IsNil, IsZero, CanSet, Set, New evaluated on static descriptors (DESIGN.md 3.5); the struct's field list comes from go/types on every run",
 			"template-data and _anchors values are trees as produced by the YAML decoder (ghost depth labelling TreeInv/AllTop/ghostFresh is a precondition of the merge functions); top-level maps of different config levels are distinct objects (hypothesis 'sep' of the key-by-key postconditions)",
